@@ -17,7 +17,7 @@ func init() {
 			"It does not decide character-level equality of literals and JSON nor validity of the variables object for all spellings (value level).",
 		Mutants: []Mutant{
 			{Name: "a null default of a list variable is wrapped into a list (reverts the F83 fix)", File: "v2/pkg/astnormalization/variables_default_value_extraction.go", Rule: "C15-R6", Key: "variablesDefaultValueExtractionVisitor.EnterVariableDefinition/null-never-wrapped",
-				Old: " && valueBytes[0] != '[' && !bytes.Equal(valueBytes, literal.NULL) {", New: " && valueBytes[0] != '[' && !bytes.Equal(valueBytes, nil) {"},
+				Old: " && valueBytes[0] != '[' && !bytes.Equal(valueBytes, literal.NULL) {", New: " && valueBytes[0] != '[' && !bytes.Equal(valueBytes, literal.TRUE) {"},
 			{Name: "variables view falls back to the canonical name after a remap miss (seeded change C15-21)", File: "v2/pkg/engine/resolve/variables_view.go", Rule: "C15-R5", Key: "VariablesView.Get/remap-consulted-before-lookup",
 				Old: "\tval := v.variables.Get(head)\n", New: "\tval := v.variables.Get(head)\n\tif val == nil && head != path[0] {\n\t\tval = v.variables.Get(path[0])\n\t}\n"},
 			{Name: "subscription start forwards the variables as rendered (the repaired defect F16)", File: gqldsGo, Rule: "C15-R4", Key: "SubscriptionSource.Start/removes-undefined-variables",
